@@ -387,15 +387,14 @@ example : exchParametric 2 (#[#[0, 1], #[1, 0]] : Mat ℚ) [[(0, 1)]] [5] = some
 
 end ordered
 
-/- FULL STATEMENT (not proved): `GeneralStationary.calc_exchangeability_matrix` — after the `last_in_column`
-   loop (`gsLoop`, when it returns `some R`) the flow-balance hypothesis of `stationaryQ_stationary` holds:
-     ∀ j < n, sumTo n (fun i => π_i * (R i j * π_j)) = π_j * sumTo n (fun k => R j k * π_k).
-   Each `gsStep` balances one column by construction (`R[i,j] = (row_total - col_total)/π_i`), later steps only
-   touch rows that are processed later, and the last column balances because total in-flow equals total
-   out-flow; the induction over the column order was not completed in the time box.  `stationaryQ_stationary`
-   is proved *given* flow balance, and the harness checks `π Q = 0` / `π P = π` on the real GeneralStationary
-   class for every draw.  Likewise the structural hypotheses of `reversible_detailed_balance_conditional` /
-   `_monomer` (instantaneous pairs differ at exactly one position) are shown for the model's `instMask` on a
-   concrete alphabet by `decide`, not for every gap-free alphabet. -/
+/- Formerly unproved, now in separate files:
+   * `GeneralStationary`'s `last_in_column` loop balances every column ⇒ `π Q = 0`
+     (`Props/C05GenStat.lean`: `generalStationary_piQ_zero`, with the exact error-branch characterisation);
+   * the "instantaneous pairs differ at exactly one position" hypotheses of `reversible_detailed_balance_conditional` /
+     `_monomer` hold for `instMask` over every gap-free equal-length alphabet (`Props/C05Alphabet.lean`).
+
+   FULL STATEMENT (not proved): in the tolerance branch of `GeneralStationary` (`-1e-8 ≤ required < 0`, replaced by
+   `|required|`) the column is *not* exactly balanced: `col - row = 2·|required| ≤ 2e-8`; `generalStationary_piQ_zero`
+   therefore assumes `GsExact` (every required value ≥ 0).  A quantitative `|πQ| ≤ c·tol` bound is not stated. -/
 
 end CogentModel.C05
